@@ -9,11 +9,15 @@ open DirectVerif DirectVerif.Ckpt DirectVerif.Train DirectVerif.Gen.C15
 
 /-- the statement table of `Checkpointer.save` read from /repo is **well formed**: every final name is only ever the
 target of a replace from its completely written, closed temporary; `last_model.txt` is replaced after
-`model_<it>.pt` (`Props/C15.lean : crash_safe_all_wf_tables` then applies — to any harmless reordering as well) -/
-theorem save_table_wf : wfSave saveStmts = true := by decide
+`model_<it>.pt`; older checkpoints are deleted, if at all, only after the pointer moved (`Props/C15.lean :
+crash_safe_all_wf_tables`, `Props/C15Engine.lean : crash_safe_with_pruning` then apply — to any harmless reordering as well) -/
+theorem save_table_wf : wfSaveX saveStmts = true := by decide
+
+/-- … its core (the table without pruning statements, if there are any) is a well-formed table … -/
+theorem save_table_core_wf : wfSave (saveStmts.filter (· != .prune)) = true := by decide
 
 /-- … and satisfies the structural reading of well-formedness -/
-theorem save_table_wf_struct : wfSaveStruct saveStmts = true := by decide
+theorem save_table_wf_struct : wfSaveStruct (saveStmts.filter (· != .prune)) = true := by decide
 
 /-- `start_iter = checkpoint["iteration"] + 1` -/
 theorem start_iter_eq (label : Int) : start_iter label = resumeStart label := by
@@ -135,5 +139,10 @@ theorem log_guard_eq (it vs total : Nat) : log_guard (it : Int) (vs : Int) (tota
 
 /-- `list(range(lr_step_size, num_iterations, lr_step_size))` in `direct/train.py` -/
 theorem solver_steps_eq (step total : Int) : solver_steps step total = C15E.solverSteps step total := rfl
+
+/-- **every object the real engine hands to its Checkpointer passes the `HasStateDict` filter of `save`** (or is `__meta__`):
+nothing of the training state is silently left out of a checkpoint — the gradient scaler the engine constructs itself
+included (`Props/C15.lean : full_load_restores_every_object` needs exactly this of every key) -/
+theorem train_objects_all_kept : C15E.wfTrainObjects Gen.C15.trainObjects = true := by decide
 
 end DirectVerif.Bridge.C15
